@@ -1041,6 +1041,9 @@ func (x *Exec) setGhost(st *State, name string, term string, cond string) {
 }
 
 func (x *Exec) chanEventNamed(st *State, kind, name string, v *Value, okT string, cond string, pos ssa.Instruction) {
+	if kind == "recv" {
+		x.afterRecv(st)
+	}
 	if name == "" {
 		return
 	}
@@ -1053,7 +1056,7 @@ func (x *Exec) chanEventNamed(st *State, kind, name string, v *Value, okT string
 	case "send":
 		x.bumpGhost(st, "ev_send_"+name, cond)
 		if v != nil && (v.T != "" || v.K != nil) {
-			if gv, ok := st.ghost["ev_sent_"+name]; ok && gv.Sort == "Int" {
+			if gv, ok := st.ghost["ev_sent_"+name]; ok && (v.Typ == nil || gv.Sort == x.Sorts.SortOf(v.Typ)) {
 				x.setGhost(st, "ev_sent_"+name, x.term(v), cond)
 			}
 		}
@@ -1070,7 +1073,7 @@ func (x *Exec) chanEventNamed(st *State, kind, name string, v *Value, okT string
 		}
 		x.bumpGhost(st, "ev_recv_"+name, c)
 		if v != nil && v.T != "" {
-			if gv, ok := st.ghost["ev_val_"+name]; ok && gv.Sort == "Int" && x.Sorts.SortOf(v.Typ) == "Int" {
+			if gv, ok := st.ghost["ev_val_"+name]; ok && gv.Sort == x.Sorts.SortOf(v.Typ) {
 				x.setGhost(st, "ev_val_"+name, v.T, c)
 			}
 			if gv, ok := st.ghost["ev_bytes_"+name]; ok && isStringType(v.Typ) {
